@@ -131,6 +131,7 @@ func NewDriver(
 	}
 
 	d := &Driver{
+		Logger:        gd.Logger,
 		TransportType: gd.TransportType,
 		Transport:     gd.Transport,
 		Channel:       gd.Channel,
